@@ -34,4 +34,7 @@ def cells(tier):
         out += make_cells(PID, 'exc', tier, thin=plain, extra={'untimed': pat}, suffix='untimed-' + ''.join(map(str, pat)))
     out += make_cells(PID, 'exc', tier, thin=some, extra={'blank_first': True}, suffix='blank-id-first')
     out += make_cells(PID, 'exc', tier, thin=plain, extra={'blank_first': True, 'untimed': [1]}, suffix='blank-id-first+untimed-1')
+    plain2 = lambda op, story_k, tk, sk, nk: story_k in (None, 'existing') and tk in (None, 'existing', 'unknown') and \
+        (sk is None or sk in (['existing'], ['existing', 'existing'], ['existing', 'unknown'])) and (nk is None or nk == ['fresh'])
+    out += make_cells(PID, 'exc', tier, N=3, thin=plain2, extra={'prehist': True}, suffix='after-roReplace')
     return out
